@@ -264,6 +264,7 @@ fn run_tcp(c: &Case) -> Case {
         if tok_bytes(&op[0]) == b"CMD" {
             let mut pos = 3;
             if let Some(V::Array(parts)) = V::dec(op, &mut pos) {
+                o2.truncate(pos);   // a re-run operation already carries an oracle: replace it
                 // oracle: parse::<f64>() of every bulk argument, aligned with the parts
                 let mut orc: Vec<V> = parts.iter().map(|p| match p {
                     V::Bulk(t) => match parse_f64(t) { Some(x) => V::Double(x), None => V::NullBulk }, _ => V::NullBulk }).collect();
